@@ -1,6 +1,6 @@
 (* C17 — property theorems only: each restates the full statement and is closed by the lemma proved in Proofs/. *)
 From Coq Require Import ZArith List Bool.
-From NPS Require Import ListAux PySlice NumpySem Scatter BuildIdx XorBroadcast View Index Assign Reduce Scan RaOps Heap Hash HashRun BitArr RLE RLEOps RLE2d DataClass RowsSpec AssignSpec MapSpec Denote RLEMisc RL2Proof RL2Col RL2Ravel RL2Elem.
+From NPS Require Import ListAux PySlice NumpySem Scatter BuildIdx XorBroadcast View Index Assign Reduce Scan RaOps Heap Hash HashRun BitArr RLE RLEOps RLE2d DataClass RowsSpec AssignSpec MapSpec Denote RLEMisc RL2Proof RL2Col RL2Ravel RL2Elem RL2Argmax.
 Import ListNotations.
 Open Scope Z_scope.
 
@@ -43,6 +43,14 @@ Theorem C17_rl2_sum_correct :
   forall x : rl2, r_len x = None -> Forall row_wf (rows_of2 x) -> rl2_sum x = map zsum (rl2_decode x).
 Proof. exact rl2_sum_correct. Qed.
 Print Assumptions C17_rl2_sum_correct.
+
+Theorem C17_rl2_max_argmax_correct :
+  forall rows : list (list Z * list Z),
+       Forall (fun p : list Z * list Z => BinaryProof.canon Z (fst p) (snd p) /\ fst p <> []) rows ->
+       rl2_max (of_runs rows) = map zmax_list (rl2_decode (of_runs rows)) /\
+       rl2_argmax (of_runs rows) = argmax_rows (rl2_decode (of_runs rows)).
+Proof. exact rl2_max_argmax_correct. Qed.
+Print Assumptions C17_rl2_max_argmax_correct.
 
 Theorem C17_rl2_col_correct :
   forall (rows : list (list Z * list Z)) (j : Z),
